@@ -71,6 +71,7 @@ func runOnce(sc scenario, prefix []int, trace bool) (*vsched.Result, *world) {
 		if err != nil || once == nil {
 			panic(fmt.Sprint("no once attr: ", err))
 		}
+		onceOf := twoCaches(once)
 		for ti := range sc.Threads {
 			ti := ti
 			w.results[ti] = make([]obs, len(sc.Threads[ti]))
@@ -89,7 +90,7 @@ func runOnce(sc scenario, prefix []int, trace bool) (*vsched.Result, *world) {
 						w.fresh++
 						return starlark.MakeInt(1000*c.Key + w.fresh), nil
 					})
-					v, err := starlark.Call(th, once.(starlark.Callable), starlark.Tuple{starlark.String(fmt.Sprint("k", c.Key)), fn}, nil)
+					v, err := starlark.Call(th, onceOf(c.Key), starlark.Tuple{starlark.String(fmt.Sprint("k", c.Key%10)), fn}, nil)
 					vsched.Access(&w.mon, true)
 					w.results[ti][ci] = obs{v, err, true}
 				}
@@ -97,6 +98,22 @@ func runOnce(sc scenario, prefix []int, trace bool) (*vsched.Result, *world) {
 		}
 	})
 	return res, w
+}
+
+// twoCaches: keys 1..9 belong to the first cache; keys 11..19 are the SAME key strings (k1..k9) in
+// a second cache (what one cache holds is no business of another).
+func twoCaches(first starlark.Value) func(key int) starlark.Callable {
+	cv, err := starlark.Call(&starlark.Thread{}, dawn.VerifBuiltinCache, nil, nil)
+	if err != nil {
+		panic(err)
+	}
+	second, _ := cv.(starlark.HasAttrs).Attr("once")
+	return func(key int) starlark.Callable {
+		if key < 10 {
+			return first.(starlark.Callable)
+		}
+		return second.(starlark.Callable)
+	}
 }
 
 func (w *world) resultString() string {
@@ -208,6 +225,21 @@ func scenarios(thorough bool) []scenario {
 			}
 		}
 	}
+	// two caches holding the same key string: one thread touches the key in both
+	two := []call{{1, false}, {11, false}, {1, true}, {11, true}}
+	var seqs2 [][]call
+	for _, a := range two {
+		for _, b := range two {
+			if a.Key != b.Key {
+				seqs2 = append(seqs2, []call{a, b})
+			}
+		}
+	}
+	for _, a := range seqs2 {
+		for _, b := range two {
+			out = append(out, scenario{[][]call{a, {b}}})
+		}
+	}
 	if thorough {
 		for _, a := range seqs {
 			for _, b := range seqs {
@@ -243,6 +275,7 @@ func freePass(scs []scenario) {
 				panic(err)
 			}
 			once, _ := cv.(starlark.HasAttrs).Attr("once")
+			onceOf := twoCaches(once)
 			var mu sync.Mutex
 			invoked := map[int]int{}
 			fresh := 0
@@ -267,7 +300,7 @@ func freePass(scs []scenario) {
 							fresh++
 							return starlark.MakeInt(1000*c.Key + fresh), nil
 						})
-						v, _ := starlark.Call(th, once.(starlark.Callable), starlark.Tuple{starlark.String(fmt.Sprint("k", c.Key)), fn}, nil)
+						v, _ := starlark.Call(th, onceOf(c.Key), starlark.Tuple{starlark.String(fmt.Sprint("k", c.Key%10)), fn}, nil)
 						vals[ti][ci] = v
 					}
 				}()
